@@ -115,6 +115,29 @@ class PoolClsInterp(K.ClsInterp):
         return r, m
 
 
+PROBE_TEXT = 'ab a\nb 12 $x.(aB) -3.5|a'
+
+
+def behaviour_differs(obj, text):
+    """'' when obj.get_matches / has_match on the probe text are what a fresh re.compile of its own pattern gives"""
+    import re as _re
+    try:
+        c = _re.compile(text, _re.M | _re.S)
+    except Exception:
+        return ''
+    want = [m.group(0) for m in c.finditer(PROBE_TEXT)]
+    try:
+        got = obj.get_matches(PROBE_TEXT)
+        has = obj.has_match(PROBE_TEXT)
+    except Exception as e:
+        return 'raised %s: %s on matching' % (type(e).__name__, e)
+    if got != want:
+        return 'finds %r where its pattern finds %r' % (got[:6], want[:6])
+    if has != bool(want):
+        return 'has_match is %r although its pattern finds %r' % (has, want[:3])
+    return ''
+
+
 def cls_fp(status, events, text):
     last = events[-1] if events else {}
     if status == 'done' and text is not None and C.set_of_single(text) is not None:
@@ -159,6 +182,7 @@ def run_shard(ctx):
     evaluations = 0
     ncases = 0
     compared = 0
+    probed = 0
     truncated = False
 
     def report(sym, detail, case, showp):
@@ -193,6 +217,23 @@ def run_shard(ctx):
             if e.verdict == 'viol' and e.symptom == 'mutated-operand':
                 report('mutated-operand', e.detail, {'kind': 'hist-dsl', 'prog': prog, 'form': form, 'pooled': True}, show(prog))
         clean = not any(e.verdict == 'viol' for e in ev1 + ev2)
+        # behaviour, not only text: what a freshly built / a pooled object finds must be what its own pattern finds;
+        # every third fresh object is then compiled (retained) and dropped, so that state which a dead object leaves
+        # behind (class-level tables, id()-keyed caches) meets the objects built after it
+        for which, obj, txt in (('fresh', I.last_real if st1 == 'done' else None, t1), ('pooled', P.last_real if st2 == 'done' else None, t2)):
+            if obj is None or (idx + (which == 'pooled')) % 2:
+                continue
+            why = behaviour_differs(obj, txt)
+            probed += 1
+            if why:
+                report('history-dependent', 'a %s object with pattern %r %s' % (which, txt, why),
+                       {'kind': 'hist-dsl', 'prog': prog, 'form': form, 'history': True}, show(prog))
+        if st1 == 'done' and idx % 3 == 0:
+            try:
+                I.last_real.compile()
+            except Exception:
+                pass
+        I.last_real = None
         if st1 == 'done' and st2 == 'done':
             compared += 1
             a, b = C.parse(t1), C.parse(t2)
@@ -212,7 +253,7 @@ def run_shard(ctx):
         if snapshot(r) != P.first_snap[key]:
             changed += 1
             report('mutated-operand', 'pooled object %s changed from %r to %r over the shard' % (key[:80], P.first_snap[key][:2], snapshot(r)[:2]),
-                   {'kind': 'hist-pool', 'node': json.loads(key)}, key[:100])
+                   {'kind': 'hist-pool', 'node': json.loads(key.split('|', 1)[1]), 'form': key.split('|', 1)[0]}, key[:100])
     # classes: same regime (fresh vs one shared instance per distinct sub-expression)
     KI = K.ClsInterp(seed)
     KI.scan_sample = False
@@ -280,7 +321,7 @@ def run_shard(ctx):
         'truncated': truncated, 'fingerprints': fps, 'text_fingerprints': textfp,
         'extra': {'fresh_vs_pooled_compared': compared, 'pool_objects': len(P.pool), 'pool_reuses': P.reused,
                   'pool_objects_changed': changed, 'abuse_ops': sum(P.abuses.values()),
-                  'class_fresh_vs_pooled_compared': ccompared, 'class_pool_objects': len(PK.pool), 'class_pool_reuses': PK.reused},
+                  'behaviour_probes': probed, 'class_fresh_vs_pooled_compared': ccompared, 'class_pool_objects': len(PK.pool), 'class_pool_reuses': PK.reused},
     }
 
 
@@ -449,7 +490,7 @@ def replay(case, check, seed=0):
     elif kind == 'hist-pool':
         P = PoolInterp(seed=seed)
         for _ in range(6):
-            P.run_program(case['node'], 'c')
+            P.run_program(case['node'], case.get('form', 'c'))
         for key, (r, s) in P.pool.items():
             if snapshot(r) != P.first_snap[key]:
                 out.append({'symptom': 'mutated-operand', 'detail': 'pooled object %s changed' % key[:80], 'event': {}, 'sig': 'mutated-operand'})
